@@ -36,10 +36,51 @@ def _frame_part(chk, n):
     return results
 
 
+def _sock_part(chk, n_sock, n_pipe):
+    scen = importlib.import_module('scen_sock')
+    rng = chk.rng
+    cases = [scen.gen_sock(rng, chk.tier, mode='thread', boundary='one'),
+             scen.gen_sock(rng, chk.tier, mode='thread', boundary='flood'),
+             scen.gen_sock(rng, chk.tier, mode='thread', boundary='bigfast'),
+             scen.gen_sock(rng, chk.tier, mode='proc', boundary='bigfast')]
+    cases += [scen.gen_sock(rng, chk.tier, boundary=('bigfast' if rng.random() < 0.1 else None)) for _ in range(n_sock)]
+    cases += [scen.gen_pipe(rng, chk.tier) for _ in range(n_pipe)]
+    try:
+        results = chk.run_cases('scen_sock', cases, sched=False, per_case_timeout=scen.CHILD_TIMEOUT + 30)
+    except core.InfraError:
+        raise
+    chk.account(scen, results, 'E4-processes')
+    chk.collect_monitors(results, {'C18'}, keyfn)
+    traced = [(c, r) for c, r in results if c['kind'] == 'sock' and c['mode'] == 'thread']
+    nval, ntot = chk.validate('mux', scen, traced)
+    chk.add_obligation('correspondence', 'mux: event traces of the real SocketServer/SocketClient replayed through Mux.step (drv mux)',
+                       nval == ntot, cases=ntot, agreed=nval)
+    dist = chk.cov['distribution'].setdefault('sock', {})
+    walls = sorted(r.get('wall') or 0 for _c, r in results)
+    for case, res in results:
+        key = case['kind'] + (':' + case['mode'] if case['kind'] == 'sock' else '')
+        dist[key] = dist.get(key, 0) + 1
+        if case['kind'] == 'sock':
+            dist['requests'] = dist.get('requests', 0) + len(case['reqs'])
+            dist['handler_completions_overtaking'] = dist.get('handler_completions_overtaking', 0) + (res.get('reordered') or 0)
+            dist['max_body_bytes'] = max(dist.get('max_body_bytes', 0), max(r['pl'][1] for r in case['reqs']))
+            dist[f'nconn={case["nconn"]}'] = dist.get(f'nconn={case["nconn"]}', 0) + 1
+        else:
+            dist['pipe_objects'] = dist.get('pipe_objects', 0) + res.get('nobjects', 0)
+    dist['median_case_wall_s'] = walls[len(walls) // 2] if walls else 0
+    dist['max_case_wall_s'] = walls[-1] if walls else 0
+    for case, res in results:
+        if case['kind'] == 'sock' and case['mode'] == 'thread' and 2 <= len(case['reqs']) <= 4:
+            chk.sample(dict(case=case, events=[list(e) for e in res['events']][:80], results=res['results']))
+            break
+    return results
+
+
 def run(chk):
     chk.audit(PROPS)
     quick = chk.tier == 'quick'
     _frame_part(chk, 500 if quick else 12000)
+    _sock_part(chk, 36 if quick else 500, 10 if quick else 120)
     chk.cov['rule'] = (
         'frame (E3): cases = random (records: id class x encoder x payload class [empty, header look-alike, newline-heavy, '
         'random bytes, nested objects, unicode text] x size incl. 64 KiB boundaries; reader limit; mode clean/cut/malformed '
@@ -65,7 +106,7 @@ ASSUMPTIONS = [
 
 def replay(chk, data):
     case = data['case']
-    scen_name = {'frame': 'scen_frame'}.get(case.get('kind'), 'scen_frame')
+    scen_name = {'frame': 'scen_frame', 'sock': 'scen_sock', 'pipe': 'scen_sock'}.get(case.get('kind'), 'scen_frame')
     res = chk.run_cases(scen_name, [case], sched=False)
     _case, r = res[0]
     hits = [m for m in r['monitors'] if m['prop'] == chk.prop]
